@@ -246,3 +246,50 @@ def scale_bases(n):
             out.append(tuple(sub) + (p,))
         out.append(tuple(LENGTH_CHAIN) + (p,))
     return out
+
+
+# --------------------------------------------------------------------------------------------
+# thin family for mesh equivariance with LONG texts: a small skeleton permutation in which one
+# point is replaced by a long monotone run (an inflation)
+# --------------------------------------------------------------------------------------------
+
+def inflate_point(sigma, j, m, direction):
+    """sigma with its point j replaced by an increasing ("inc") or decreasing ("dec") run of m
+    consecutive values in m consecutive positions."""
+    v = sigma[j]
+    out = []
+    for i, w in enumerate(sigma):
+        if i == j:
+            out.extend(range(v, v + m) if direction == "inc" else range(v + m - 1, v - 1, -1))
+        else:
+            out.append(w + m - 1 if w > v else w)
+    return tuple(out)
+
+
+def run_is_bystander(patt, sigma, j, direction):
+    """True iff no occurrence of patt in an inflation of point j uses a point of the run (a run of
+    |patt| points shows every way of using 1..|patt| run points)."""
+    k = len(patt)
+    t = inflate_point(sigma, j, k, direction)
+    block = set(range(j, j + k))
+    return not any(block & set(occ) for occ in R.occurrences(patt, t))
+
+
+def long_mesh_skeletons(maxlen=4):
+    """All (patt, sigma, j, direction) with patt of length 3, sigma of length 3..maxlen containing
+    patt, and the run at j a pure bystander.  Then, for every run length m >= 1, the run lies in
+    one and the same box of every occurrence as the point j does in sigma, so
+
+        #mesh occurrences of (patt, shading) in inflate_point(sigma, j, m, direction)
+            = #mesh occurrences of (patt, shading) in sigma          (brute force on sigma)."""
+    out = []
+    for patt in R.perms(3):
+        for n in range(3, maxlen + 1):
+            for sigma in R.perms(n):
+                if not R.contains(sigma, patt):
+                    continue
+                for j in range(n):
+                    for direction in ("inc", "dec"):
+                        if run_is_bystander(patt, sigma, j, direction):
+                            out.append((patt, sigma, j, direction))
+    return out
